@@ -195,6 +195,15 @@ func (w *psWorld) build(conns map[string]*psConn, name string, cs *psConn, m psM
 		case "wrong":
 			cs.srp = nil
 			t.Add(ref.TagProof, rnd(64))
+		case "nilkey":
+			// the proof of a session whose key was never set: computable without the setup code
+			cs.srp = nil
+			if cs.salt == nil {
+				t.Add(ref.TagProof, rnd(64))
+			} else {
+				a, _ := t.Get(ref.TagPublicKey)
+				t.Add(ref.TagProof, ref.NilKeyM1("Pair-Setup", cs.salt, a, cs.B))
+			}
 		case "missing":
 			cs.srp = nil
 		}
@@ -229,6 +238,9 @@ func (w *psWorld) build(conns map[string]*psConn, name string, cs *psConn, m psM
 			key = cs.encKey[:]
 		case "zero":
 			key = make([]byte, 32)
+		case "nilkey":
+			k := ref.HKDF(nil, []byte("Pair-Setup-Encrypt-Salt"), []byte("Pair-Setup-Encrypt-Info"))
+			key = k[:]
 		case "random":
 			key = rnd(32)
 		case "other":
